@@ -152,7 +152,7 @@ static std::string canon_dead(const std::string& d) {
 static std::set<std::string> g_seen;             // per-batch dedup of harvested texts
 static void harvest(const std::string& l) { if (g_seen.size() < 200000 && g_seen.insert(l).second) J.line(l); }
 
-struct Counters { long states = 0, rt = 0, lock = 0; };
+struct Counters { long states = 0, rt = 0, lock = 0, orig_not_ok = 0; };
 
 // ------------------------------------------------------------------------------------------ random data
 static Coefficient big_coeff(Rng& r) {
@@ -217,7 +217,7 @@ template <class D> struct Engine {
            esc((a.empty() && b.empty()) ? std::string("") : diff_lines(a, b)) + "|" + esc(detail));
   }
   // returns 2 iff the round trip is perfect, 1 iff it differs only in parts the object declares dead, else 0
-  int roundtrip(const std::string& d, T& recv, const std::string& kind) {
+  int roundtrip(const std::string& d, T& recv, const std::string& kind, bool orig_ok) {
     ++cnt.rt;
     std::string pd = dump(recv);
     std::string prior = D::status(pd), text = D::status(d);
@@ -241,7 +241,7 @@ template <class D> struct Engine {
     bool okk = false;
     phase("loaded_OK");
     try { okk = recv.OK(); } catch (...) { okk = false; }
-    if (!okk) { fail(kind, "not_ok", "", pd, "", "", ""); return 0; }
+    if (!okk && orig_ok) { fail(kind, "not_ok", "", pd, "", "", ""); if (g_verbose) J.line("verbose dump|" + esc(d)); return 0; }
     return 2;
   }
   static std::string apply(T& x, uint64_t opseed) {
@@ -267,13 +267,16 @@ template <class D> struct Engine {
       if (!D::status(d).empty()) states.insert(D::status(d));
       phase("section_load");
       D::harvest_parts(d, *this);
+      phase("orig_OK");
+      bool orig_ok = false; try { orig_ok = x.OK(); } catch (...) {}
+      if (!orig_ok) ++cnt.orig_not_ok;
       phase("receiver_make");
       std::unique_ptr<T> a(new T(D::fresh()));
-      int oka = roundtrip(d, *a, "fresh");
+      int oka = roundtrip(d, *a, "fresh", orig_ok);
       std::string kind;
       phase("receiver_make");
       std::unique_ptr<T> b(new T(D::dirty(r, kind)));
-      int okb = roundtrip(d, *b, kind);
+      int okb = roundtrip(d, *b, kind, orig_ok);
       if (step == len) break;
       // (re)choose the twin among the loaded objects that round-tripped
       if (!twin || twin_age >= 3 || r.chance(1, 3)) {
@@ -313,7 +316,7 @@ template <class D> struct Engine {
       harvest("state|" + name + "|" + esc(*i));
   }
   void summary() {
-    std::ostringstream o; o << "sum|" << name << "|states=" << cnt.states << "|rt=" << cnt.rt << "|lock=" << cnt.lock;
+    std::ostringstream o; o << "sum|" << name << "|states=" << cnt.states << "|rt=" << cnt.rt << "|lock=" << cnt.lock << "|orig_not_ok=" << cnt.orig_not_ok;
     J.line(o.str());
   }
   // standalone load of a sub-object's text taken out of a bigger dump
@@ -699,7 +702,7 @@ template <class PD> struct PowersetD : Hooks {
   static std::string query(const T& x) {
     T c(x); std::ostringstream o; using namespace IO_Operators;
     o << c.size() << " " << c.is_empty() << " " << c.is_universe() << "\n";
-    c.omega_reduce(); o << c.size() << "\n" << dump(c);
+    c.omega_reduce(); o << c.size() << "\n" << canon_dead(dump(c));
     return o.str();
   }
   static std::string status(const std::string&) { return ""; }
@@ -758,13 +761,30 @@ static void harvest_enum(const std::string& d, const char* key, const char* kind
   std::istringstream is(d.substr(p + strlen(key))); std::string w; if (is >> w) harvest(std::string("enum|") + kind + "|" + w);
 }
 
-static long input_cs_count(const std::string& d) {
-  size_t p = d.find("input_cs( "); return p == std::string::npos ? -1 : atol(d.c_str() + p + 10);
+static long count_after(const std::string& d, const char* key) {
+  size_t p = d.find(key); return p == std::string::npos ? 0 : atol(d.c_str() + p + strlen(key));
 }
+// a MIP/PIP dump without the three sequences ascii_load appends to (input_cs, base, mapping)
+static std::string strip_appendable(const std::string& d) {
+  std::istringstream is(d); std::string l, out; int skip = 0;
+  while (std::getline(is, l)) {
+    if (l.compare(0, 9, "input_cs(") == 0 || l.compare(0, 5, "base(") == 0 || l.compare(0, 8, "mapping(") == 0) { skip = 1; continue; }
+    if (l.compare(0, 22, "inherited_constraints:") == 0 || l.compare(0, 25, "first_pending_constraint:") == 0
+        || l == "last_generator" || l.compare(0, 17, "integer_variables") == 0) skip = 0;
+    if (!skip) out += l + "\n";
+  }
+  return out;
+}
+// the loaded object = the text plus what the receiver already held in input_cs / base / mapping, nothing else differs
 static std::string diagnose_appended(const std::string& prior, const std::string& text, const std::string& result) {
   if (result.empty()) return "";
-  long a = input_cs_count(prior), b = input_cs_count(text), c = input_cs_count(result);
-  if (a > 0 && b >= 0 && c == a + b) { std::ostringstream o; o << "appended_to_prior_content:" << b << "+" << a << "=" << c; return o.str(); }
+  long a = count_after(prior, "input_cs( "), b = count_after(text, "input_cs( "), c = count_after(result, "input_cs( ");
+  long ba = count_after(prior, "\nbase( "), bb = count_after(text, "\nbase( "), bc = count_after(result, "\nbase( ");
+  long ma = count_after(prior, "\nmapping( "), mb = count_after(text, "\nmapping( "), mc = count_after(result, "\nmapping( ");
+  bool had = a > 0 || ba > 0 || ma > 0;
+  bool sums = c == a + b && bc == ba + bb && mc >= mb && mc <= ma + mb + 1;
+  if (had && sums && strip_appendable(text) == strip_appendable(result)) {
+    std::ostringstream o; o << "appended_to_prior_content:input_cs=" << b << "+" << a << "=" << c << ",base=" << bb << "+" << ba << "=" << bc << ",mapping=" << mb << "+" << ma << "~" << mc; return o.str(); }
   return "";
 }
 struct MipD : Hooks {
